@@ -279,6 +279,17 @@ enum Receiving {
         completed: bool,
     },
     Requests(Vec<Request>),
+    /// Start of the next message, obtained by `recv_chunk` while it detected that the
+    /// chunked message being received was cancelled. Processed by the next receive call.
+    Parked(Parked),
+}
+
+/// Start of a message that has been taken from the receive queue but not yet processed.
+enum Parked {
+    /// First data chunk of a message.
+    Data { buf: Bytes, last: bool },
+    /// First chunk of port open requests.
+    Requests { requests: Vec<Request>, last: bool },
 }
 
 /// Receives byte data over a channel.
@@ -423,6 +434,14 @@ impl Receiver {
                     return Ok(None);
                 }
 
+                // Start of next message was parked when cancellation was reported.
+                Receiving::Parked(_) => match mem::take(&mut self.receiving) {
+                    Receiving::Parked(Parked::Data { buf, last }) => {
+                        self.receiving = Receiving::Chunks { chunks: vec![buf].into(), completed: last };
+                    }
+                    _ => (),
+                },
+
                 // Try to receive next chunk.
                 _ => match self.rx.recv().await {
                     Some(PortReceiveMsg::Data(data)) => {
@@ -432,8 +451,7 @@ impl Receiver {
                             // First segment without last segment indicates that last transmission
                             // was cancelled.
                             (Receiving::Chunks { .. }, true) => {
-                                self.receiving =
-                                    Receiving::Chunks { chunks: vec![data.buf].into(), completed: data.last };
+                                self.receiving = Receiving::Parked(Parked::Data { buf: data.buf, last: data.last });
                                 return Err(RecvChunkError::Cancelled);
                             }
                             // Either continuation or start of transmission.
@@ -451,7 +469,11 @@ impl Receiver {
                     Some(PortReceiveMsg::PortRequests(req)) => {
                         self.credits.start_return(req.credit, self.remote_port, &self.tx);
                         if let Receiving::Chunks { .. } = &self.receiving {
-                            self.receiving = Receiving::Nothing;
+                            self.receiving = if req.first {
+                                Receiving::Parked(Parked::Requests { requests: req.requests, last: req.last })
+                            } else {
+                                Receiving::Nothing
+                            };
                             return Err(RecvChunkError::Cancelled);
                         }
                     }
@@ -482,21 +504,44 @@ impl Receiver {
         loop {
             self.credits.return_flush().await;
 
-            match self.rx.recv().await {
-                // Data message.
-                Some(PortReceiveMsg::Data(data)) => {
-                    self.credits.start_return(data.credit, self.remote_port, &self.tx);
+            // Obtain next message, either parked by recv_chunk or from the receive queue.
+            let (parked, first) = match mem::take(&mut self.receiving) {
+                Receiving::Parked(parked) => (parked, true),
+                receiving => {
+                    self.receiving = receiving;
 
-                    if data.first {
+                    match self.rx.recv().await {
+                        Some(PortReceiveMsg::Data(data)) => {
+                            self.credits.start_return(data.credit, self.remote_port, &self.tx);
+                            (Parked::Data { buf: data.buf, last: data.last }, data.first)
+                        }
+                        Some(PortReceiveMsg::PortRequests(req)) => {
+                            self.credits.start_return(req.credit, self.remote_port, &self.tx);
+                            (Parked::Requests { requests: req.requests, last: req.last }, req.first)
+                        }
+                        // Port closure.
+                        Some(PortReceiveMsg::Finished) => {
+                            self.finished = true;
+                            return Ok(None);
+                        }
+                        None => return Err(RecvError::ChMux),
+                    }
+                }
+            };
+
+            match parked {
+                // Data message.
+                Parked::Data { buf, last } => {
+                    if first {
                         self.receiving = Receiving::Data(DataBuf::new());
                     }
 
                     if let Receiving::Data(mut data_buf) = mem::take(&mut self.receiving) {
                         // Try to add data to buffer.
-                        match data_buf.try_push(data.buf, self.max_data_size) {
+                        match data_buf.try_push(buf, self.max_data_size) {
                             // Data fits into buffer.
                             Ok(()) => {
-                                if data.last {
+                                if last {
                                     return Ok(Some(Received::Data(data_buf)));
                                 } else {
                                     self.receiving = Receiving::Data(data_buf);
@@ -506,8 +551,7 @@ impl Receiver {
                             // Maximum message size has been reached.
                             Err(buf) => {
                                 data_buf.bufs.push_back(buf);
-                                self.receiving =
-                                    Receiving::Chunks { chunks: data_buf.bufs, completed: data.last };
+                                self.receiving = Receiving::Chunks { chunks: data_buf.bufs, completed: last };
                                 return Ok(Some(Received::Chunks));
                             }
                         }
@@ -515,36 +559,26 @@ impl Receiver {
                 }
 
                 // Port connection requests.
-                Some(PortReceiveMsg::PortRequests(req)) => {
-                    self.credits.start_return(req.credit, self.remote_port, &self.tx);
-
-                    if req.first {
+                Parked::Requests { requests: new_requests, last } => {
+                    if first {
                         self.receiving = Receiving::Requests(Vec::new());
                     }
 
                     if let Receiving::Requests(mut requests) = mem::take(&mut self.receiving) {
-                        requests.extend(req.requests);
+                        requests.extend(new_requests);
 
                         if requests.len() > self.max_ports {
                             self.receiving = Receiving::Nothing;
                             return Err(RecvError::ExceedsMaxPortCount(self.max_ports));
                         }
 
-                        if req.last {
+                        if last {
                             return Ok(Some(Received::Requests(requests)));
                         } else {
                             self.receiving = Receiving::Requests(requests);
                         }
                     }
                 }
-
-                // Port closure.
-                Some(PortReceiveMsg::Finished) => {
-                    self.finished = true;
-                    return Ok(None);
-                }
-
-                None => return Err(RecvError::ChMux),
             }
         }
     }
